@@ -147,7 +147,7 @@ pub fn profile(prop: u8, thorough: bool) -> Profile {
             p.big_w = 8;
             p.hashers = ALL_HASHERS;
             p.universe_w = [5, 5, 3, 0];
-            p.ops = with(p.ops, &[("get", 4), ("get_mut", 3), ("into_vec", 2), ("remove", 14), ("push", 16)]);
+            p.ops = with(p.ops, &[("get", 4), ("get_mut", 3), ("into_vec", 2), ("remove", 14), ("push", 16), ("serde", 2), ("deser_seq", 3)]);
         }
         4 => {
             p.big_w = 8;
